@@ -46,6 +46,13 @@ use std::{
 /// Logging target for the file.
 const LOG_TARGET: &str = "litep2p::transport-service";
 
+#[cfg(litep2p_verif)]
+#[path = "../verif/c08.rs"]
+pub(crate) mod verif_c08;
+#[cfg(litep2p_verif)]
+#[path = "../verif/c09.rs"]
+pub(crate) mod verif_c09;
+
 /// Connection context for the peer.
 ///
 /// Each peer is allowed to have at most two connections open. The first open connection is the
@@ -173,6 +180,10 @@ impl KeepAliveTracker {
                 (peer, connection_id)
             }));
         }
+        #[cfg(litep2p_verif)]
+        if let Some(now) = crate::verif::logical_now() {
+            self.last_activity.insert((peer, connection_id), now);
+        }
 
         tracing::trace!(
             target: LOG_TARGET,
@@ -221,6 +232,9 @@ impl Stream for KeepAliveTracker {
 
                 // Keep-alive timeout not reached yet.
                 let inactive_for = last_activity.elapsed();
+                #[cfg(litep2p_verif)]
+                let inactive_for =
+                    crate::verif::logical_elapsed(*last_activity).unwrap_or(inactive_for);
                 if inactive_for < self.keep_alive_timeout {
                     let timeout = self.keep_alive_timeout.saturating_sub(inactive_for);
 
